@@ -9,6 +9,7 @@
 
 pub mod analysis;
 pub mod chain;
+pub mod convpool;
 pub mod oplevel;
 
 /// Deterministic 32-bit mixer (no RNG: every choice is a function of the case).
